@@ -115,6 +115,12 @@ func (c *RunnerCloserManager) AddCloser(closers ...any) error {
 	c.mngr.lock.Lock()
 	defer c.mngr.lock.Unlock()
 
+	// Run sets closing while holding the lock: check again now that we hold it,
+	// otherwise a closer registered here would be accepted but never called.
+	if c.closing.Load() {
+		return ErrManagerAlreadyClosed
+	}
+
 	var errs []error
 	for _, cl := range closers {
 		switch v := cl.(type) {
